@@ -73,6 +73,8 @@ pub struct World {
     pub cfg: Cfg,
     conn: Vec<Conn>,
     disconnect_requested: Vec<bool>,
+    /// the responder's Accept has been delivered on the current connection (no other mini-protocol may run before)
+    hs_accepted: Vec<bool>,
     pending: Vec<VecDeque<AnyMessage>>,
     /// wire state per peer per protocol
     wire: Vec<BTreeMap<&'static str, &'static str>>,
@@ -123,6 +125,7 @@ impl World {
             b,
             conn: vec![Conn::None; n],
             disconnect_requested: vec![false; n],
+            hs_accepted: vec![false; n],
             pending: (0..n).map(|_| VecDeque::new()).collect(),
             wire: (0..n).map(|_| fresh_wire()).collect(),
             unconfirmed: (0..n).map(|_| BTreeMap::new()).collect(),
@@ -146,6 +149,7 @@ impl World {
         self.wire[i] = fresh_wire();
         self.unconfirmed[i].clear();
         self.disconnect_requested[i] = false;
+        self.hs_accepted[i] = false;
     }
 
     /// Apply one op (if consistent), drain the behaviour and check what it emitted.
@@ -319,6 +323,9 @@ impl World {
                         let (variant, to) = allowed[*choice as usize % allowed.len()];
                         let m = self.responder_message(pr, variant, *choice);
                         self.wire[p].insert(pr, to);
+                        if pr == "handshake" && variant == "Accept" {
+                            self.hs_accepted[p] = true;
+                        }
                         self.replies += 1;
                         if pr == "peersharing" {
                             self.hidden[5] += 1 + *choice as u32;
@@ -389,6 +396,13 @@ impl World {
                         self.hidden[4] += 1;
                     }
                     let ok = sp.agency(st) == Agency::Client && sp.next(st, &variant).is_some();
+                    if pr != "handshake" && !self.hs_accepted[iu] && check_wire {
+                        // refused, answered with a query reply, or not answered yet: the connection carries no other protocol
+                        return Err(Violation {
+                            sig: format!("c28:{pr}:{variant}:without-accepted-handshake"),
+                            msg: format!("after {op:?} the initiator emits {pr}::{variant} to {p} although no handshake Accept has been received on this connection (handshake state {})", self.wire[iu]["handshake"]),
+                        });
+                    }
                     if pr == "peersharing" && self.cfg.accept_peer_sharing != 1 && check_wire {
                         // the responder negotiated peer sharing off: it does not run that mini-protocol at all
                         return Err(Violation {
